@@ -126,6 +126,19 @@ def C07(infos: List[EnumInfo], ctx: dict):
                     v = by_name.get(vn)
                     if v is not None:
                         check("from_str", "EnumString", v, lit, False)
+                # the converted name must also be *accepted*: the parser and the printers agree on it
+                from props_strings import gen_eval, overlaps
+                if not overlaps(es):
+                    for v in es.enabled():
+                        if v.default or v.has_explicit_name():
+                            continue
+                        want = S.case(v.name, es.style)
+                        rows += 1
+                        got = gen_eval(pt, want)
+                        if got != v.name:
+                            out.append(Violation("C07", "from_str accepts the converted name the other derives print", "C07:X:converted-name-not-parsed:%s" % (es.style or "none"),
+                                                 "from_str maps %r (identifier %s under %r) to %s" % (want, v.name, es.style_str, got or "the fall-through"),
+                                                 where(info, "EnumString", {"variant": v.name, "style": es.style_str, "expected": want, "ident_class": ident_class(v.name)})))
             except Unrecognised as e:
                 out.append(unrec("C07", info, "EnumString", e))
         if info.group("EnumMessage"):
